@@ -172,6 +172,7 @@ class Client(object):
         self.entities = []
         self.events = []
         self.wire_out = []
+        self.crash_plan = None
 
     # ---------------------------------------------------------------- life cycle
     def build(self):
@@ -226,13 +227,32 @@ class Client(object):
                             me.run_op(item[1])
                         finally:
                             me.busy = False
-            except (SimCrash, SimShutdown):
+            except SimCrash:
+                me.on_crashed(epoch)
+                raise
+            except SimShutdown:
                 raise
             except BaseException as e:  # noqa
                 import traceback
                 w.client_error(me, "main thread", e, traceback.format_exc())
 
         self.task = k.spawn(main, "client-" + self.name, proc=self)
+
+    def on_crashed(self, epoch):
+        """The process died at a crash point of its own (not killed by the director)."""
+        if self.epoch != epoch or self.dead:
+            return
+        self.world.note("crashed", self.name)
+        if self.cid is not None:
+            self.world.server.disconnect(self.cid)
+            self.cid = None
+        self.alive = False
+        self.dead = True
+        self.epoch += 1
+        self.crash_plan = None
+        sqlshim.close_prefix(os.path.join(self.world.home, "yowsup", self.phone))
+        self.stack = None
+        self.app = None
 
     def run_op(self, fn):
         import traceback
